@@ -1156,6 +1156,22 @@ class MatchVal:
         return True
 
 
+class PurePathVal:
+    """a pathlib.PurePosixPath built from a scenario string (lexical only)"""
+
+    def __init__(self, p) -> None:  # type: ignore[no-untyped-def]
+        self.p = p
+
+    def __eq__(self, o: object) -> bool:
+        return isinstance(o, PurePathVal) and self.p == o.p
+
+    def __hash__(self) -> int:
+        return hash(self.p)
+
+    def __repr__(self) -> str:
+        return f"PurePathVal({str(self.p)!r})"
+
+
 class DictVal:
     """A dict display (local or module-level constant) in the scenario evaluator."""
     def __init__(self, node: ast.Dict) -> None:
@@ -1284,6 +1300,14 @@ def concrete_eval(ctx: Ctx, f: FunctionInfo, e: Optional[ast.AST], env: Dict[str
         import datetime as _dt
         if isinstance(base, _dt.timedelta) and e.attr in ("days", "seconds", "microseconds"):
             return getattr(base, e.attr)
+        if isinstance(base, PurePathVal) and e.attr in ("parts", "name", "suffix", "stem"):
+            return getattr(base.p, e.attr)
+        if isinstance(base, PurePathVal) and e.attr == "parent":
+            return PurePathVal(base.p.parent)
+        if isinstance(base, PurePathVal) and e.attr == "parents":
+            return tuple(PurePathVal(x_) for x_ in base.p.parents)
+        if dn_ in ("os.sep", "os.path.sep", "posixpath.sep"):
+            return "/"
         return UNKNOWN
     if isinstance(e, ast.IfExp):
         t = ev(e.test)
@@ -1421,6 +1445,24 @@ def concrete_eval(ctx: Ctx, f: FunctionInfo, e: Optional[ast.AST], env: Dict[str
                 return UNKNOWN
             return tuple(r0) if len(r0) <= 64 else UNKNOWN
         return UNKNOWN
+    if isinstance(e, ast.Call) and isinstance(e.func, ast.Name) and e.func.id == "zip" and e.args and not e.keywords \
+            and not any(isinstance(a_, ast.Starred) for a_ in e.args):
+        # zip of finite evaluable sequences and ENDLESS generators of the package (`while True: yield ...` with no way out):
+        # the length is the shortest finite one, the endless streams contribute unknown elements
+        cols: List[object] = []
+        for a_ in e.args:
+            v_ = ev(a_)
+            if isinstance(v_, tuple) and not isinstance(v_, PartialTuple):
+                cols.append(v_)
+            elif isinstance(a_, ast.Call) and _endless_generator_call(ctx, f, a_):
+                cols.append(None)
+            else:
+                return UNKNOWN
+        fin = [c_ for c_ in cols if c_ is not None]
+        if not fin:
+            return UNKNOWN
+        n_ = min(len(c_) for c_ in fin)  # type: ignore[arg-type]
+        return tuple(tuple(UNKNOWN if c_ is None else c_[i_] for c_ in cols) for i_ in range(n_))  # type: ignore[index]
     if isinstance(e, ast.JoinedStr):
         out = []
         for part in e.values:
@@ -1575,6 +1617,34 @@ def concrete_eval(ctx: Ctx, f: FunctionInfo, e: Optional[ast.AST], env: Dict[str
         if isinstance(fn, ast.Name) and fn.id == "len" and len(e.args) == 1:
             v = ev(e.args[0])
             return len(v) if isinstance(v, (tuple, list, str, dict, set, frozenset)) else UNKNOWN
+        if isinstance(fn, ast.Name) and fn.id in ("all", "any") and len(e.args) == 1 and not e.keywords:
+            v = ev(e.args[0])
+            if isinstance(v, (tuple, frozenset)) and not isinstance(v, PartialTuple) and not any(x_ is UNKNOWN for x_ in v):
+                return all(v) if fn.id == "all" else any(v)
+            return UNKNOWN
+        if (dotted(fn) or "") in ("os.path.commonpath", "posixpath.commonpath") and len(e.args) == 1 and not e.keywords:
+            v = ev(e.args[0])
+            if isinstance(v, tuple) and not isinstance(v, PartialTuple) and v and all(isinstance(x_, str) and x_.startswith("/") for x_ in v):
+                import posixpath
+                return posixpath.commonpath(list(v))  # all absolute: purely lexical, cannot raise
+            return UNKNOWN
+        if (dotted(fn) or "").split(".")[-1] in ("PurePath", "PurePosixPath", "Path") and len(e.args) == 1 and not e.keywords:
+            v = ev(e.args[0])
+            if isinstance(v, str):
+                import pathlib
+                return PurePathVal(pathlib.PurePosixPath(v))
+            return UNKNOWN
+        if isinstance(fn, ast.Attribute) and fn.attr in ("is_relative_to", "relative_to") and len(e.args) == 1 and not e.keywords:
+            v, w = ev(fn.value), ev(e.args[0])
+            if isinstance(v, PurePathVal) and isinstance(w, (PurePathVal, str)):
+                w_ = w.p if isinstance(w, PurePathVal) else w
+                if fn.attr == "is_relative_to":
+                    return v.p.is_relative_to(w_)
+                try:
+                    return PurePathVal(v.p.relative_to(w_))
+                except ValueError:
+                    return UNKNOWN
+            return UNKNOWN
         if isinstance(fn, ast.Attribute) and fn.attr == "format" and not any(k.arg is None for k in e.keywords) \
                 and not any(isinstance(a_, ast.Starred) for a_ in e.args):
             v = ev(fn.value)
@@ -1711,6 +1781,31 @@ def concrete_eval(ctx: Ctx, f: FunctionInfo, e: Optional[ast.AST], env: Dict[str
                             return EnumVal(ci.name, nm, cv.value)
         return UNKNOWN
     return UNKNOWN
+
+
+def _endless_generator_call(ctx: Ctx, f: FunctionInfo, call: ast.Call) -> bool:
+    """`call` resolves to one package generator whose body ends in `while True:` with a yield on every iteration and no
+    break / return / raise statement anywhere in the function: it never runs dry, so it cannot shorten a zip."""
+    try:
+        cal = ctx.prog.resolve_call(call, f)
+    except Exception:
+        return False
+    if cal is None or cal.kind != "func" or len(cal.funcs) != 1:
+        return False
+    t = cal.funcs[0]
+    body = getattr(t.node, "body", None)
+    if not isinstance(body, list) or not body:
+        return False
+    last = body[-1]
+    if not (isinstance(last, ast.While) and isinstance(last.test, ast.Constant) and last.test.value is True and not last.orelse):
+        return False
+    inner = [x for st in body for x in ast.walk(st)]
+    if any(isinstance(x, (ast.Break, ast.Return, ast.Raise, ast.FunctionDef, ast.Lambda, ast.Try, ast.With, ast.YieldFrom, ast.Await)) for x in inner):
+        return False
+    # a yield statement directly in the loop body (not under a condition)
+    return any(isinstance(st, ast.Expr) and isinstance(st.value, ast.Yield) for st in last.body) \
+        and not any(isinstance(x, ast.Yield) for st in body[:-1] for x in ast.walk(st)) \
+        and not any(isinstance(x, ast.Continue) for x in inner)
 
 
 def scenario_walk(ctx: Ctx, f: FunctionInfo, starts: Iterable[int], env: Dict[str, object],
@@ -1870,12 +1965,20 @@ def explore(ctx: Ctx, f: FunctionInfo, starts: Iterable[int], env: Optional[Dict
             continue
         n = g.nodes[nid]
         a = n.ast
-        if iterate and n.kind == "loop" and isinstance(a, ast.For) and isinstance(a.target, ast.Name):
+        if iterate and n.kind == "loop" and isinstance(a, ast.For) and (isinstance(a.target, ast.Name) or (
+                isinstance(a.target, ast.Tuple) and all(isinstance(t_, ast.Name) for t_ in a.target.elts))):
             seq = value_of(a.iter, nid, store)
+            if isinstance(a.target, ast.Tuple) and not (isinstance(seq, tuple) and all(
+                    isinstance(x_, tuple) and len(x_) == len(a.target.elts) for x_ in seq)):
+                seq = UNKNOWN
             if isinstance(seq, tuple) and not isinstance(seq, PartialTuple):
                 i = store.get(("iter", nid), 0)
                 if isinstance(i, int) and i < len(seq):
-                    store[a.target.id] = seq[i]
+                    if isinstance(a.target, ast.Tuple):
+                        for t_, x_ in zip(a.target.elts, seq[i]):
+                            store[t_.id] = x_  # type: ignore[attr-defined]
+                    else:
+                        store[a.target.id] = seq[i]
                     store[("iter", nid)] = i + 1
                     t = edge_target(g, n, "true")
                 else:
